@@ -625,7 +625,27 @@ func (g *hayGen) asciiFill(n int) []byte {
 // check of the bounded-backtracker dispatchers, backtracker input limits of a few KiB, vector
 // blocks): ASCII for more than 4 KiB, then a late non-ASCII rune, with members of the pattern's
 // language at the start, in the middle and at the end.
+var noLongHays bool
+
+// lateCurated: curated patterns added after the ledgers were first recorded; they are processed AFTER the
+// numbered patterns (appending to curatedPatterns would shift every index and with it every haystack).
+// Alternations of four and more branches that end in a quantifier or a group, with and without a literal
+// branch: the join state of such an alternation has many epsilon in-edges, which the reverse-NFA
+// construction chains through Split states (nfa/reverse.go:buildSplitChain).
+var lateCurated = []string{`x(\d+|[a-z]+|_+|-)=`, `id=(?:\d+|[a-f]+|_+|-);`, `foo(?:a+|b+|c+|d+)x`, `(?:a+|b+|c+|d+)x`, `(a)|(b)|(c)|(d)`,
+	`(?:ab|c+|d+|e+)x`, `(?:\d+|[a-z]+|_+|-+|=+)!`, `(?:a+|b+|c+|d+|e+)$`, `k(?:(a)|(b+)|(c*)|d)z`}
+
+func lateCuratedFor(tierIsThorough bool) []string {
+	if tierIsThorough {
+		return nil // the thorough ledgers predate them
+	}
+	return lateCurated
+}
+
 func (g *hayGen) longHays() [][]byte {
+	if noLongHays {
+		return nil
+	}
 	lr := g.lr
 	m1, m2, m3 := sampleMatch(lr, g.re, 0), sampleMatch(lr, g.re, 0), sampleMatch(lr, g.re, 0)
 	a := concatBytes(m1, g.asciiFill(4100+lr.intn(200)), []byte("é"), m2, g.asciiFill(3))
@@ -641,6 +661,9 @@ func (g *hayGen) longHays() [][]byte {
 // short ASCII words separated by single separators, i.e. very many adjacent short matches for
 // class-repetition patterns, with members of the language sprinkled in.
 func (g *hayGen) hugeHays(n int) [][]byte {
+	if noLongHays {
+		return nil
+	}
 	lr := g.lr
 	out := make([]byte, 0, n+64)
 	for len(out) < n {
